@@ -21,6 +21,17 @@ Scope predicates (all decidable, all satisfied by the generated cases — see th
 * `World.supBOn S`   the same world-level demand (`World.supB`: every field typed and in `Ty.supB`) restricted to a
                     closed set `S` of classes (`C01_roundtrip_interp_on`);
 * `Ty.supPair cu cs` = `supG cs.gen` when `cu` is a Converter, `supB` when `cu` is a BaseConverter;
+* `Ty.unionsOK w tup`, `World.unionsOK tup`   every class union `Union[K…(, None)]` in the type / in the field types of the
+                    class table is in the round-trip scope (`unionOKB`), stated with the predicates of the disambiguator
+                    model (C12): distinct attrs/dataclass members; the decision function can be created for the union and for
+                    every literal sub-union a member payload can be routed to (`Disambig.deepOk`, the hypothesis of
+                    `C12_complete`); every `Literal`-typed attribute of a member is an `__init__` argument (the generated dict
+                    hooks do not emit `init=False` attributes, so a literal discriminator among them would be missing);
+                    `tup` = the tuple strategy, under which NO union is in scope (the decision function only accepts
+                    mappings).  Types without unions satisfy it trivially (`noUnion_unionsOK`).  The bridge
+                    `World.table : World → Disambig.Table` and the lemma that the dict emitted for a conforming instance
+                    of member `k` is a `Disambig.PayloadOf … k` (`payloadOf_unFields`) are in `Conv/Union.lean` and
+                    `Lemmas/UnionPayload.lean`; `unionPick_member` applies `C12_complete`;
 * `conf w T x`, `x.valid`   x is a value of T (an existing Python object: dict keys duplicate-free).
 
 `C01_roundtrip` (Converter-unstructured data) and `C01_roundtrip_interp` (BaseConverter-unstructured data) are the
@@ -36,11 +47,13 @@ either a `Converter` or a `BaseConverter` with the same strategy (forbid_extra_k
 theorem C01_roundtrip (w : World) (cu cs : Cfg) (t : Ty) (x : Obj)
     (hgen : cu.gen = true) (hstrat : cs.tupleStrat = cu.tupleStrat) (hforbid : cs.forbid = false)
     (hw : w.WF) (hwe : w.WFE) (hws : w.supG cs.gen) (hs : t.supG cs.gen = true)
+    (hwu : w.unionsOK cs.tupleStrat) (hu : t.unionsOK w cs.tupleStrat = true)
     (hc : conf w t x = true) (hv : x.valid = true) :
     convStructure w cs t (convUnstructure w cu t x) = some x := by
   unfold convStructure convUnstructure
   have key := roundtrip w cu.core cs.core (by simpa [Cfg.core] using hgen) (by simpa [Cfg.core] using hstrat)
-    (by simpa [Cfg.core] using hforbid) hw hwe (by simpa [Cfg.core] using hws) t x (by simpa [Cfg.core] using hs) hc hv
+    (by simpa [Cfg.core] using hforbid) hw hwe (by simpa [Cfg.core] using hws) (by simpa [Cfg.core] using hwu)
+    t x (by simpa [Cfg.core] using hs) (by simpa [Cfg.core] using hu) hc hv
   split
   · rw [modes_agree]; exact key
   · exact key
@@ -49,9 +62,10 @@ theorem C01_roundtrip (w : World) (cu cs : Cfg) (t : Ty) (x : Obj)
 theorem C01_roundtrip_same (w : World) (cfg : Cfg) (t : Ty) (x : Obj)
     (hgen : cfg.gen = true) (hforbid : cfg.forbid = false)
     (hw : w.WF) (hwe : w.WFE) (hws : w.supG true) (hs : t.supG true = true)
+    (hwu : w.unionsOK cfg.tupleStrat) (hu : t.unionsOK w cfg.tupleStrat = true)
     (hc : conf w t x = true) (hv : x.valid = true) :
     convStructure w cfg t (convUnstructure w cfg t x) = some x :=
-  C01_roundtrip w cfg cfg t x hgen rfl hforbid hw hwe (by rw [hgen]; exact hws) (by rw [hgen]; exact hs) hc hv
+  C01_roundtrip w cfg cfg t x hgen rfl hforbid hw hwe (by rw [hgen]; exact hws) (by rw [hgen]; exact hs) hwu hu hc hv
 
 /-- **Round trip, data unstructured by a `BaseConverter`.**  A `BaseConverter` unstructures the components of
 collections, mappings and optionals by their run-time class, keeps container classes, passes NewType values and
@@ -62,11 +76,12 @@ either a `BaseConverter` or a `Converter` with the same strategy (forbid_extra_k
 theorem C01_roundtrip_interp (w : World) (cu cs : Cfg) (t : Ty) (x : Obj)
     (hgen : cu.gen = false) (hstrat : cs.tupleStrat = cu.tupleStrat) (hforbid : cs.forbid = false)
     (hw : w.WF) (hwe : w.WFE) (hws : w.supB) (hs : t.supB = true)
+    (hwu : w.unionsOK cs.tupleStrat) (hu : t.unionsOK w cs.tupleStrat = true)
     (hc : conf w t x = true) (hv : x.valid = true) :
     convStructure w cs t (convUnstructure w cu t x) = some x := by
   unfold convStructure convUnstructure
   have key := roundtrip_interp w cu.core cs.core (by simpa [Cfg.core] using hgen) (by simpa [Cfg.core] using hstrat)
-    (by simpa [Cfg.core] using hforbid) hw hwe hws t x hs hc hv
+    (by simpa [Cfg.core] using hforbid) hw hwe hws (by simpa [Cfg.core] using hwu) t x hs (by simpa [Cfg.core] using hu) hc hv
   split
   · rw [modes_agree]; exact key
   · exact key
@@ -77,11 +92,13 @@ the table outside `S` (say, one with an `Annotated` field, which only a `Convert
 theorem C01_roundtrip_interp_on (w : World) (cu cs : Cfg) (t : Ty) (x : Obj) (S : Nat → Prop)
     (hgen : cu.gen = false) (hstrat : cs.tupleStrat = cu.tupleStrat) (hforbid : cs.forbid = false)
     (hw : w.WF) (hwe : w.WFE) (hws : w.supBOn S) (hs : t.supB = true) (hr : ∀ c ∈ t.refs, S c)
+    (hwu : ∀ c, S c → ∀ f ∈ w.fields c, ∀ t, f.ty = some t → t.unionsOK w cs.tupleStrat = true)
+    (hu : t.unionsOK w cs.tupleStrat = true)
     (hc : conf w t x = true) (hv : x.valid = true) :
     convStructure w cs t (convUnstructure w cu t x) = some x := by
   unfold convStructure convUnstructure
   have key := roundtrip_interp_on w cu.core cs.core (by simpa [Cfg.core] using hgen) (by simpa [Cfg.core] using hstrat)
-    (by simpa [Cfg.core] using hforbid) hw hwe S hws t x hs hr hc hv
+    (by simpa [Cfg.core] using hforbid) hw hwe S hws (by simpa [Cfg.core] using hwu) t x hs hr (by simpa [Cfg.core] using hu) hc hv
   split
   · rw [modes_agree]; exact key
   · exact key
@@ -91,11 +108,12 @@ strategy, any combination of validation modes, each unstructuring class within i
 theorem C01_roundtrip_full (w : World) (cu cs : Cfg) (t : Ty) (x : Obj)
     (hstrat : cs.tupleStrat = cu.tupleStrat) (hforbid : cs.forbid = false)
     (hw : w.WF) (hwe : w.WFE) (hws : w.supPair cu cs) (hs : t.supPair cu cs = true)
+    (hwu : w.unionsOK cs.tupleStrat) (hu : t.unionsOK w cs.tupleStrat = true)
     (hc : conf w t x = true) (hv : x.valid = true) :
     convStructure w cs t (convUnstructure w cu t x) = some x := by
   unfold convStructure convUnstructure
   have key := roundtrip_full w cu.core cs.core (by simpa [Cfg.core] using hstrat)
-    (by simpa [Cfg.core] using hforbid) hw hwe hws t x hs hc hv
+    (by simpa [Cfg.core] using hforbid) hw hwe hws (by simpa [Cfg.core] using hwu) t x hs (by simpa [Cfg.core] using hu) hc hv
   split
   · rw [modes_agree]; exact key
   · exact key
@@ -105,11 +123,12 @@ class is structured back by either class. -/
 theorem C01_roundtrip_cross (w : World) (cu cs : Cfg) (t : Ty) (x : Obj)
     (hstrat : cs.tupleStrat = cu.tupleStrat) (hforbid : cs.forbid = false)
     (hw : w.WF) (hwe : w.WFE) (hws : w.supB) (hs : t.supB = true)
+    (hwu : w.unionsOK cs.tupleStrat) (hu : t.unionsOK w cs.tupleStrat = true)
     (hc : conf w t x = true) (hv : x.valid = true) :
     convStructure w cs t (convUnstructure w cu t x) = some x := by
   unfold convStructure convUnstructure
   have key := roundtrip_cross w cu.core cs.core (by simpa [Cfg.core] using hstrat)
-    (by simpa [Cfg.core] using hforbid) hw hwe hws t x hs hc hv
+    (by simpa [Cfg.core] using hforbid) hw hwe hws (by simpa [Cfg.core] using hwu) t x hs (by simpa [Cfg.core] using hu) hc hv
   split
   · rw [modes_agree]; exact key
   · exact key
@@ -203,6 +222,17 @@ theorem rtWorldB_supB : rtWorldB.supB := by
     rcases hf with rfl | rfl | rfl <;> simp [Ty.supB, Ty.isPrimLeaf, Ty.hashPrim, SK.structTo, CK.isSet]
   | n + 2 => simp [rtWorldB, World.fields] at hf
 
+theorem rtWorldB_noUnion : rtWorldB.noUnion := by
+  intro c f hf t ht
+  match c with
+  | 0 =>
+    simp [rtWorldB, World.fields] at hf
+    rcases hf with rfl | rfl | rfl <;> (simp at ht; subst ht; simp [Ty.noUnion])
+  | 1 =>
+    simp [rtWorldB, World.fields] at hf
+    rcases hf with rfl | rfl | rfl <;> (simp at ht; subst ht; simp [Ty.noUnion, Ty.noUnionL])
+  | n + 2 => simp [rtWorldB, World.fields] at hf
+
 theorem rtValueB_conf : conf rtWorldB (.cls 1) rtValueB = true := by
   simp [rtValueB, rtWorldB, conf, confL, confF, confT, confKV, World.fields, World.members, World.frozen, keysOf,
     Obj.pyEq, Obj.num2?, SK.structTo, CK.isSet, nodupPy, Obj.memPy, hashableL, hashable, Dflt.value?]
@@ -214,14 +244,15 @@ theorem rtValueB_valid : rtValueB.valid = true := by
 example : convStructure rtWorldB ⟨true, false, true, false⟩ (.cls 1)
     (convUnstructure rtWorldB ⟨false, false, false, false⟩ (.cls 1) rtValueB) = some rtValueB :=
   C01_roundtrip_interp rtWorldB ⟨false, false, false, false⟩ ⟨true, false, true, false⟩ (.cls 1) rtValueB
-    rfl rfl rfl rtWorldB_WF rtWorldB_WFE rtWorldB_supB (by simp [Ty.supB]) rtValueB_conf rtValueB_valid
+    rfl rfl rfl rtWorldB_WF rtWorldB_WFE rtWorldB_supB (by simp [Ty.supB]) (rtWorldB_noUnion.unionsOK _)
+    (by simp [Ty.unionsOK]) rtValueB_conf rtValueB_valid
 
 /-- BaseConverter (tuple strategy) -> BaseConverter (tuple strategy, detailed validation), through the full statement -/
 example : convStructure rtWorldB ⟨false, true, true, false⟩ (.cls 1)
     (convUnstructure rtWorldB ⟨false, true, false, false⟩ (.cls 1) rtValueB) = some rtValueB :=
   C01_roundtrip_full rtWorldB ⟨false, true, false, false⟩ ⟨false, true, true, false⟩ (.cls 1) rtValueB
     rfl rfl rtWorldB_WF rtWorldB_WFE (by simpa [World.supPair] using rtWorldB_supB) (by simp [Ty.supPair, Ty.supB])
-    rtValueB_conf rtValueB_valid
+    (rtWorldB_noUnion.unionsOK _) (by simp [Ty.unionsOK]) rtValueB_conf rtValueB_valid
 
 /-! Non-vacuity of the `_on` form: the same table plus a class with an `Annotated` field (Converter-only, so
 `World.supB` fails for the table as a whole); the value's type reaches classes 0 and 1 only. -/
@@ -282,9 +313,119 @@ example : convStructure rtWorldB' ⟨false, false, true, false⟩ (.cls 1)
     rfl rfl rfl rtWorldB'_WF
     ⟨fun e v hv => rtWorldB_WFE.enumLeaf e v hv, fun e => rtWorldB_WFE.enumDistinct e⟩
     rtWorldB'_supBOn (by simp [Ty.supB]) (by simp [Ty.refs])
+    (by
+      intro c hc f hf t ht
+      have hc2 : c < 2 := hc
+      have : rtWorldB'.fields c = rtWorldB.fields c := by
+        match c with
+        | 0 => rfl
+        | 1 => rfl
+        | n + 2 => omega
+      rw [this] at hf
+      exact noUnion_unionsOK _ _ t (rtWorldB_noUnion c f hf t ht))
+    (by simp [Ty.unionsOK])
     (by simp [rtValueB, rtWorldB', rtWorldB, conf, confL, confF, confT, confKV, World.fields, World.members, World.frozen,
           keysOf, Obj.pyEq, Obj.num2?, SK.structTo, CK.isSet, nodupPy, Obj.memPy, hashableL, hashable, Dflt.value?])
     rtValueB_valid
+
+/-! Non-vacuity for class unions: class 0 (attrs, `a: int`) and class 1 (dataclass, `b: str`, `s: int = 0`) are told
+apart by their unique required attributes; class 2 holds a `list[Union[K0, K1, None]]` and a `Union[K0, K1]`.
+Every hypothesis holds (the union hypotheses `unionsOK` are decided by evaluating the disambiguator model), and the
+conclusion is instantiated for a `Converter` feeding a `BaseConverter` in detailed mode. -/
+def rtWorldU : World :=
+  { classes :=
+      [ { kind := .attrs, frozen := false, fields :=
+            [ { name := "a", alias := "a", ty := some .int, dflt := .none, init := true, required := true } ] },
+        { kind := .dataclass, frozen := false, fields :=
+            [ { name := "b", alias := "b", ty := some .str, dflt := .none, init := true, required := true },
+              { name := "s", alias := "s", ty := some .int, dflt := .const (.int 0), init := true, required := true } ] },
+        { kind := .attrs, frozen := false, fields :=
+            [ { name := "us", alias := "us", ty := some (.coll .list (.union [0, 1] true)), dflt := .none, init := true, required := true },
+              { name := "u", alias := "u", ty := some (.union [0, 1] false), dflt := .none, init := true, required := true } ] } ],
+    enums := [] }
+
+def rtValueU : Obj :=
+  .inst 2 [("us", .coll .list [.inst 0 [("a", .int 1)], .none, .inst 1 [("b", .str "q"), ("s", .int 0)]]),
+           ("u", .inst 1 [("b", .str "z"), ("s", .int 5)])]
+
+theorem rtWorldU_WF : rtWorldU.WF := by
+  constructor
+  · intro c f hf d hd
+    match c with
+    | 0 => simp [rtWorldU, World.fields] at hf; subst hf; simp [Dflt.value?] at hd
+    | 1 =>
+      simp [rtWorldU, World.fields] at hf
+      rcases hf with rfl | rfl
+      · simp [Dflt.value?] at hd
+      · simp [Dflt.value?] at hd; subst hd; simp [fconf, conf]
+    | 2 =>
+      simp [rtWorldU, World.fields] at hf
+      rcases hf with rfl | rfl <;> simp [Dflt.value?] at hd
+    | n + 3 => simp [rtWorldU, World.fields] at hf
+  · intro c
+    match c with
+    | 0 => simp [rtWorldU, World.fields]
+    | 1 => simp [rtWorldU, World.fields]
+    | 2 => simp [rtWorldU, World.fields]
+    | n + 3 => simp [rtWorldU, World.fields]
+
+theorem rtWorldU_WFE : rtWorldU.WFE := by
+  constructor
+  · intro e v hv; simp [rtWorldU, World.members] at hv
+  · intro e; simp [rtWorldU, World.members, nodupPy]
+
+theorem rtWorldU_unionOK : unionOKB rtWorldU [0, 1] = true := by decide
+
+theorem rtWorldU_supG : rtWorldU.supG false := by
+  intro c f hf
+  match c with
+  | 0 => simp [rtWorldU, World.fields] at hf; subst hf; simp [Ty.supG]
+  | 1 => simp [rtWorldU, World.fields] at hf; rcases hf with rfl | rfl <;> simp [Ty.supG]
+  | 2 => simp [rtWorldU, World.fields] at hf; rcases hf with rfl | rfl <;> simp [Ty.supG, SK.structTo, CK.isSet]
+  | n + 3 => simp [rtWorldU, World.fields] at hf
+
+theorem rtWorldU_unionsOK : rtWorldU.unionsOK false := by
+  intro c f hf t ht
+  match c with
+  | 0 => simp [rtWorldU, World.fields] at hf; subst hf; simp at ht; subst ht; simp [Ty.unionsOK]
+  | 1 =>
+    simp [rtWorldU, World.fields] at hf
+    rcases hf with rfl | rfl <;> (simp at ht; subst ht; simp [Ty.unionsOK])
+  | 2 =>
+    simp [rtWorldU, World.fields] at hf
+    rcases hf with rfl | rfl <;> (simp at ht; subst ht; simp [Ty.unionsOK, rtWorldU_unionOK])
+  | n + 3 => simp [rtWorldU, World.fields] at hf
+
+theorem rtValueU_conf : conf rtWorldU (.cls 2) rtValueU = true := by
+  simp [rtValueU, rtWorldU, conf, confL, confF, World.fields, SK.structTo, CK.isSet, Dflt.value?]
+
+theorem rtValueU_valid : rtValueU.valid = true := by
+  simp [rtValueU, Obj.valid, Obj.validL, Obj.validF]
+
+/-- Converter (dict strategy, fast) -> BaseConverter (dict strategy, detailed validation), through unions -/
+example : convStructure rtWorldU ⟨false, false, true, false⟩ (.cls 2)
+    (convUnstructure rtWorldU ⟨true, false, false, false⟩ (.cls 2) rtValueU) = some rtValueU :=
+  C01_roundtrip rtWorldU ⟨true, false, false, false⟩ ⟨false, false, true, false⟩ (.cls 2) rtValueU
+    rfl rfl rfl rtWorldU_WF rtWorldU_WFE rtWorldU_supG (by simp [Ty.supG]) rtWorldU_unionsOK (by simp [Ty.unionsOK])
+    rtValueU_conf rtValueU_valid
+
+/-- the union itself as the top-level type, data unstructured by a `BaseConverter` -/
+example : convStructure rtWorldU ⟨true, false, false, false⟩ (.union [0, 1] true)
+    (convUnstructure rtWorldU ⟨false, false, false, false⟩ (.union [0, 1] true) (.inst 1 [("b", .str "z"), ("s", .int 5)]))
+    = some (.inst 1 [("b", .str "z"), ("s", .int 5)]) :=
+  C01_roundtrip_full rtWorldU ⟨false, false, false, false⟩ ⟨true, false, false, false⟩ (.union [0, 1] true) _
+    rfl rfl rtWorldU_WF rtWorldU_WFE
+    (by
+      simp only [World.supPair, Bool.false_eq_true, if_false]
+      intro c f hf
+      match c with
+      | 0 => simp [rtWorldU, World.fields] at hf; subst hf; simp [Ty.supB]
+      | 1 => simp [rtWorldU, World.fields] at hf; rcases hf with rfl | rfl <;> simp [Ty.supB]
+      | 2 => simp [rtWorldU, World.fields] at hf; rcases hf with rfl | rfl <;> simp [Ty.supB, SK.structTo, CK.isSet]
+      | n + 3 => simp [rtWorldU, World.fields] at hf)
+    (by simp [Ty.supPair, Ty.supB]) rtWorldU_unionsOK (by simp [Ty.unionsOK, rtWorldU_unionOK])
+    (by simp [rtWorldU, conf, confF, World.fields, Dflt.value?])
+    (by simp [Obj.valid, Obj.validF])
 end Examples
 
 end CattrsModel
